@@ -2665,7 +2665,7 @@ class TagCollection(list):
 
         return filterableNodes.filterAnd(**kwargs)
 
-    filterAllAnd = filter
+    filterAllAnd = filterAll
 
     def filterAllOr(self, **kwargs):
         '''
